@@ -80,7 +80,32 @@ class Gen:
                 if not any(o["id"] == i for o in bios + [o for f in incs for o in f["bios"]]):
                     o = self.obj([i])
                     (r.choice(incs)["bios"] if incs and r.random() < 0.5 else bios).append(o)
-        return {"cells": cells, "morphs": morphs, "bios": bios, "incs": incs}
+        case = {"cells": cells, "morphs": morphs, "bios": bios, "incs": incs}
+        x = r.random()
+        if x < 0.2:
+            case["build"] = "parsed"      # the parser built the document: the referenced element's parent is the document
+        elif x < 0.45:
+            self.move(case)               # ... or a cell: it was parsed as that cell's child, made stand-alone, referenced back
+        if sum(1 for c in cells for k in ("m", "b") if c[k]["attr"] is not None and c[k]["emb"] is None) > 9 and case.get("build") == "parsed":
+            del case["build"]             # (should deepcopy ever follow parent_object_ again, the cost doubles per referring slot)
+        return case
+
+    def move(self, case):
+        r = self.rng
+        case["build"] = "parsed"
+        origin = set()
+        for ci, c in enumerate(case["cells"]):
+            for kind, key in (("m", "morphs"), ("b", "bios")):
+                if c[kind]["attr"] is None and c[kind]["emb"] is not None and r.random() < 0.7:
+                    o = dict(c[kind]["emb"], from_cell=ci)
+                    case[key] = case[key] + [o]
+                    c[kind] = {"attr": o["id"], "emb": None}
+                    case["build"] = "moved"
+                    origin.add((ci, kind))
+                    if r.random() < 0.5:   # some other cell refers to it too
+                        others = [x for xi, x in enumerate(case["cells"]) if x is not c and x[kind]["emb"] is None and (xi, kind) not in origin]
+                        if others:
+                            r.choice(others)[kind] = {"attr": o["id"], "emb": None}
 
 
     def history(self):
@@ -185,6 +210,23 @@ def fixed_cases():
                            "m": {"attr": ma, "emb": None}, "b": {"attr": ba, "emb": None}, "how": how})
     out.append({"cells": [c for c in cs if c["list"] == "cells"] + [c for c in cs if c["list"] == "cells2"],
                 "morphs": [O("m0", 90, [1])], "bios": [O("b0", 91, [2, 3])], "incs": []})
+    # a parsed cell's embedded element is moved to top level and referenced back, then resolved: morphology and biophysics,
+    # Cell and Cell2CaPools, the origin cell alone / together with other referring cells (parent_object_ of the referenced
+    # element = the referring cell, for the others ANOTHER cell); plus a fully parsed document (parent = the document)
+    def ref(lst, i, rest, m, b):
+        return {"list": lst, "id": i, "rest": rest, "m": {"attr": m, "emb": None}, "b": {"attr": b, "emb": None}}
+
+    for k, (lst, others) in enumerate((("cells", False), ("cells", True), ("cells2", False), ("cells2", True))):
+        cs = [ref(lst, "o0", 300 + 10 * k, "mm", "bb")]
+        if others:
+            cs += [ref("cells", "c1", 301 + 10 * k, "mm", None), ref("cells2", "k1", 302 + 10 * k, "mm", "bb"), ref("cells", "c2", 303 + 10 * k, None, "bb")]
+            cs = [c for c in cs if c["list"] == "cells"] + [c for c in cs if c["list"] == "cells2"]
+        oi = [i for i, c in enumerate(cs) if c["id"] == "o0"][0]
+        out.append({"cells": cs, "morphs": [O("m0", 310 + k, [4]), dict(O("mm", 311 + k, [5, 6]), from_cell=oi)],
+                    "bios": [dict(O("bb", 312 + k, [7]), from_cell=oi)], "incs": [], "build": "moved"})
+    out.append({"cells": [ref("cells", "c0", 350, "m0", "b0"), ref("cells2", "k0", 351, "m0", None)], "morphs": [O("m0", 352, [1, 2])],
+                "bios": [O("b0", 353, [3])], "incs": [{"href": "inc0.nml", "morphs": [O("m1", 354, [])], "bios": [], "missing": False}],
+                "build": "parsed"})
     # the definitions live in an included file, one case per file form the loader accepts
     for k, form in enumerate(FORMS):
         out.append({"cells": [{"list": "cells", "id": "c0", "rest": 50 + k, "m": {"attr": "m0", "emb": None}, "b": {"attr": "b0", "emb": None}},
@@ -324,6 +366,9 @@ def predicate(case, res):
                                     [c[kind]["attr"], want_emb], [attr, emb]))
             if o[0] != c["id"] or o[1] != c["rest"]:
                 bad.append(("C17:cell-payload-changed", "other content of a cell changed (%s)" % mode, [c["id"], c["rest"]], o[:2]))
+        if run.get("hidden_docs"):
+            bad.append(("C17:copy-drags-document-copy:parsed-document", "every embedded copy carries, through parent_object_, a private deep "
+                        "copy of the whole document: time and memory double with every referring cell (%s)" % mode, 0, run["hidden_docs"]))
         if not run["copies_fresh"]:
             bad.append(("C17:copy-shares-objects", "an embedded copy shares objects with the referenced element or another copy (%s)" % mode,
                         "fresh objects only", run["pattern"]))
@@ -492,6 +537,9 @@ def run(ck):
         ck.tally("includes:%d" % sh["incs"])
         if "parser" in res:
             ck.tally("via-NeuroMLXMLParser:" + res["parser"]["outcome"])
+        ck.tally("built:" + case.get("build", "api"))
+        for pk in res.get("parent_kinds", []):
+            ck.tally("referenced-element-parent:" + pk)
         for k in sh["kinds"]:
             ck.tally("slot:" + k)
         for key, what, exp, obs in predicate(case, res):
